@@ -5,6 +5,7 @@ import (
 	"bytes"
 	"errors"
 	"net"
+	"strings"
 	"sync"
 	"time"
 
@@ -107,10 +108,13 @@ func (cj *CookieJar) getCookiesByHost(host string) []*fasthttp.Cookie {
 	}
 	// Drop the references to the released cookies and store the purged list,
 	// so that a released cookie is never reachable from the jar again.
-	for i := len(kept); i < len(cookies); i++ {
-		cookies[i] = nil
+	if len(kept) != len(cookies) {
+		for i := len(kept); i < len(cookies); i++ {
+			cookies[i] = nil
+		}
+		// host may alias a request buffer: the map key must own its bytes.
+		cj.hostCookies[strings.Clone(host)] = kept
 	}
-	cj.hostCookies[host] = kept
 
 	return kept
 }
@@ -131,8 +135,9 @@ func (cj *CookieJar) Set(uri *fasthttp.URI, cookies ...*fasthttp.Cookie) {
 //
 // CookieJar stores copies of the provided cookies, so they may be safely released after use.
 func (cj *CookieJar) SetByHost(host []byte, cookies ...*fasthttp.Cookie) {
-	host = hostWithoutPort(host)
-	hostStr := utils.UnsafeString(host)
+	// The map key must own its bytes: assigning to an existing key makes the map
+	// keep the new key string, which must not alias the caller's buffer.
+	hostStr := string(hostWithoutPort(host))
 
 	cj.mu.Lock()
 	defer cj.mu.Unlock()
@@ -141,11 +146,7 @@ func (cj *CookieJar) SetByHost(host []byte, cookies ...*fasthttp.Cookie) {
 		cj.hostCookies = make(map[string][]*fasthttp.Cookie)
 	}
 
-	hostCookies, ok := cj.hostCookies[hostStr]
-	if !ok {
-		// If the key does not exist in the map, make a copy to avoid unsafe usage.
-		hostStr = string(host)
-	}
+	hostCookies := cj.hostCookies[hostStr]
 
 	for _, cookie := range cookies {
 		existing := searchCookieByKeyAndPath(cookie.Key(), cookie.Path(), hostCookies)
@@ -192,8 +193,8 @@ func (cj *CookieJar) dumpCookiesToReq(req *fasthttp.Request) {
 
 // parseCookiesFromResp parses the cookies from the response and stores them for the specified host.
 func (cj *CookieJar) parseCookiesFromResp(host, _ []byte, resp *fasthttp.Response) {
-	host = hostWithoutPort(host)
-	hostStr := utils.UnsafeString(host)
+	// The map key must own its bytes (see SetByHost).
+	hostStr := string(hostWithoutPort(host))
 
 	cj.mu.Lock()
 	defer cj.mu.Unlock()
@@ -202,11 +203,7 @@ func (cj *CookieJar) parseCookiesFromResp(host, _ []byte, resp *fasthttp.Respons
 		cj.hostCookies = make(map[string][]*fasthttp.Cookie)
 	}
 
-	cookies, ok := cj.hostCookies[hostStr]
-	if !ok {
-		// If the key does not exist in the map, make a copy to avoid unsafe usage.
-		hostStr = string(host)
-	}
+	cookies := cj.hostCookies[hostStr]
 
 	now := time.Now()
 	resp.Header.VisitAllCookie(func(_, value []byte) {
